@@ -273,7 +273,13 @@ func BinRef(op string, a, b V) Expect {
 			if b.I == -1 {
 				return exact(Int(0), "integer remainder")
 			}
-			return exact(Int(a.I%b.I), "integer remainder (sign of the dividend)")
+			r := a.I % b.I
+			if r != 0 && (r < 0) != (b.I < 0) {
+				// the statement does not say whether the remainder takes the sign of the dividend
+				// (truncated, PHP/Go/C) or of the divisor (floored)
+				return anyOf("integer remainder, truncated or floored", Int(r), Int(r+b.I))
+			}
+			return exact(Int(r), "integer remainder")
 		}
 		if numeric {
 			if b.float() == 0 {
@@ -343,10 +349,7 @@ func BinRef(op string, a, b V) Expect {
 				return open()
 			}
 			if b.I >= 64 {
-				if op == "<<" || a.I >= 0 {
-					return exact(Int(0), "shift by >= 64")
-				}
-				return exact(Int(-1), "arithmetic shift by >= 64")
+				return open() // shifting out all 64 bits: not fixed by the statement
 			}
 			if op == "<<" {
 				return exact(Int(a.I<<uint(b.I)), "64-bit shift")
